@@ -78,6 +78,7 @@ func runCheck(args []string) int {
 			seed = v
 		}
 	}
+	seedChars(seed)
 	c := newCtx(id, *tier, seed)
 	c.ReplayPath = *replay
 	err := f(c)
